@@ -154,8 +154,30 @@ def run_jobs(scen_name, jobs, scratch, default_budget):
 
 
 # ------------------------------------------------------------ concrete phase
+CRASH_STATS = {'c_dependency_crashes': 0}
+
+
 def run_concrete(tasks, scratch):
-    """run tasks on the default build in parallel shards; returns id -> result"""
+    """run tasks on the default build in parallel shards; returns id -> result.
+    A task whose process dies from a signal inside the C decimalfp extension (0.13.0
+    corrupts memory on e.g. Decimal('0.000000001') / Decimal(1), see DESIGN) is re-run
+    on the pure-Python decimalfp build and counted."""
+    out = _run_concrete(tasks, scratch, False)
+    crashed = [t for t in tasks if out.get(t['id'], {}).get('status') == 'crash-signal']
+    if crashed:
+        CRASH_STATS['c_dependency_crashes'] += len(crashed)
+        sub = os.path.join(scratch, 'pyimpl')
+        os.makedirs(sub, exist_ok=True)
+        out2 = _run_concrete(crashed, sub, True)
+        for k, v in out2.items():
+            v['via_python_impl'] = True
+            if v.get('status') == 'crash-signal':
+                v['status'] = 'error'
+            out[k] = v
+    return out
+
+
+def _run_concrete(tasks, scratch, py_impl):
     if not tasks:
         return {}
     nshards = max(1, min(NPROC, len(tasks) // 8 or 1))
@@ -163,6 +185,9 @@ def run_concrete(tasks, scratch):
     procs = []
     env = dict(os.environ)
     env.pop('DECIMALFP_FORCE_PYTHON_IMPL', None)
+    if py_impl:
+        env['DECIMALFP_FORCE_PYTHON_IMPL'] = '1'
+        env['SYMX_ALLOW_PY_IMPL'] = '1'
     env['PYTHONPATH'] = ROOT + os.pathsep + env.get('PYTHONPATH', '')
     for i, shard in enumerate(shards):
         tf = os.path.join(scratch, 'tasks%d.json' % i)
@@ -366,8 +391,9 @@ def _main(prop, tier, seed, scen_name, scratch, t0, only):
     for tid, (ji, rec) in wit_index.items():
         r = cres.get(tid)
         if r is None or r['status'] == 'error':
-            harness_msgs.append("witness run failed (%s): %s" % (
-                jobs[ji]['fn'], (r or {}).get('exc', 'no result')[:600]))
+            harness_msgs.append("witness run failed (%s cfg=%s choices=%s model=%s): %s" % (
+                jobs[ji]['fn'], json.dumps(jobs[ji]['cfg'])[:300], rec.get('choices'), rec.get('model'),
+                (r or {}).get('exc', 'no result')[:600]))
             n_harness += 1
             continue
         if r['status'] == 'unrepresentable':
@@ -498,6 +524,7 @@ def _main(prop, tier, seed, scen_name, scratch, t0, only):
             'known_findings_hit': [{'key': k, 'occurrences': v[1], 'matched': v[2]}
                                    for k, v in known_hits.items()],
             'non_reproducing_counterexamples': n_nonrepro,
+            'concrete_runs_crashed_in_c_decimalfp_rerun_on_python_impl': CRASH_STATS['c_dependency_crashes'],
             'symbolic_phase_s': round(t_sym, 2), 'concrete_phase_s': round(t_conc, 2),
             'exhaustive': bool(cfgs.get('exhaustive', False)),
             'harness_messages': harness_msgs[:20],
